@@ -170,6 +170,8 @@ impl Randomness {
 // `ck.powers_of_gamma_g[v][d - 1]`: the gamma power of variable v and degree d (out of range, or d = 0: abort)
 #[verifier::external_body] pub fn gamma_at(ck: &CommitterKey, v: usize, d: usize) -> (r: G1Affine)
     ensures v < ck.powers_of_gamma_g@.len(), 1 <= d <= ck.powers_of_gamma_g@[v as int]@.len(), r == ck.powers_of_gamma_g@[v as int]@[d - 1] { unimplemented!() }
+#[verifier::external_body] pub fn vec_resize_g1(v: &mut Vec<G1>, n: usize, x: G1)     // Vec::resize
+    ensures final(v)@.len() == n, forall|i: int| 0 <= i < n && i < old(v)@.len() ==> final(v)@[i] == old(v)@[i], forall|i: int| old(v)@.len() <= i < n ==> final(v)@[i] == x { unimplemented!() }
 #[verifier::external_body] pub fn vec_at<T>(v: &Vec<T>, i: usize) -> (r: &T) ensures i < v@.len(), *r == v@[i as int] { unimplemented!() }      // v[i] on prover-side data: out of range aborts
 pub proof fn lemma_terms_ok_mono(ts: Seq<(Fr, Term)>, lo: int, hi: int, hi2: int)
     requires terms_ok(ts, lo, hi), hi <= hi2
@@ -177,6 +179,7 @@ pub proof fn lemma_terms_ok_mono(ts: Seq<(Fr, Term)>, lo: int, hi: int, hi2: int
 { assert forall|k: int| 0 <= k < ts.len() implies term_wf((#[trigger] ts[k]).1.v@) && term_vars_in(ts[k].1.v@, lo, hi2) by { assert(term_vars_in(ts[k].1.v@, lo, hi)); } }
 // what the proof holds for witness i: the term-indexed commitment of the i-th quotient, plus (hiding) the gamma-commitment of the i-th quotient of the blinding polynomial
 pub open spec fn wcomm(ck: &CommitterKey, w: &MvPoly) -> FS { dot(keys_of(&ck.powers_of_g, w.terms@), coeffs_of(w.terms@), w.terms@.len()) }
+pub open spec fn wpart(ck: &CommitterKey, ws: Seq<MvPoly>, i: int) -> FS { if 0 <= i < ws.len() { wcomm(ck, &ws[i]) } else { f_zero() } }
 pub open spec fn hcomm(ck: &CommitterKey, w: &MvPoly) -> FS { dot(gkeys_of(ck, w.terms@), coeffs_of(w.terms@), w.terms@.len()) }
 pub open spec fn gkey_at_ok(ck: &CommitterKey, m: Seq<(usize, usize)>) -> bool { m.len() == 0 || (m[0].0 < ck.powers_of_gamma_g@.len() && 1 <= tdeg(m, m.len()) <= ck.powers_of_gamma_g@[m[0].0 as int]@.len()) }
 // challenge-weighted sums of the polynomials / blinding polynomials: sum_j xi_j p_j with xi_j the j-th squeeze
@@ -190,8 +193,9 @@ pub open spec fn pst_open_post(ck: &CommitterKey, ps: Seq<&LabeledMv>, point: Se
         && ws.len() == p.num_vars && (forall|x: Asg| f_sub(#[trigger] mve(p.terms@, x), mve(p.terms@, zf(point))) == qsum(ws, x, zf(point), p.num_vars as nat))
         && (hid ==> hws.len() == r.num_vars && (forall|x: Asg| f_sub(#[trigger] mve(r.terms@, x), mve(r.terms@, zf(point))) == qsum(hws, x, zf(point), r.num_vars as nat)))
         && (!hid ==> forall|x: Asg| #[trigger] mve(r.terms@, x) == f_zero())
-        && pr.w@.len() == ws.len()
-        && (forall|i: int| 0 <= i < ws.len() ==> (#[trigger] pr.w@[i])@ == (if hid { f_add(wcomm(ck, &ws[i]), hcomm(ck, &hws[i])) } else { wcomm(ck, &ws[i]) }))
+        // one witness per variable of the sum - and, when hiding, per variable of the blinding polynomial, which ranges over all variables of the key
+        && (hid ==> hws.len() >= ws.len()) && pr.w@.len() == (if hid { hws.len() } else { ws.len() })
+        && (forall|i: int| 0 <= i < pr.w@.len() ==> (#[trigger] pr.w@[i])@ == (if hid { f_add(wpart(ck, ws, i), hcomm(ck, &hws[i])) } else { wcomm(ck, &ws[i]) }))
         && (hid ==> pr.random_v->Some_0@ == mve(r.terms@, zf(point)))
 }
 pub struct MarlinPST13;
@@ -342,7 +346,7 @@ impl MarlinPST13 {
 //@rw 1 /(?s)ark_std::cfg_iter_mut!\(w\)\s*\.enumerate\(\)\s*\.for_each\(\|\(i, witness\)\| \{(.*?)\n\s*\}\);/ => let ghost w0 = w@;
             let mut i: usize = 0;
             while i < w.len()
-                invariant i <= w@.len(), w@.len() == w0.len(), w0.len() == witnesses@.len(),
+                invariant i <= w@.len(), i <= hiding_witnesses@.len(), w@.len() >= hiding_witnesses@.len(), w@.len() == w0.len(), forall|q: int| 0 <= q < w0.len() ==> (#[trigger] w0[q])@ == wpart(ck, witnesses@, q),
                     forall|q: int| 0 <= q < i ==> (#[trigger] w@[q])@ == f_add(w0[q]@, hcomm(ck, &hiding_witnesses@[q])),
                     forall|q: int| i <= q < w@.len() ==> (#[trigger] w@[q]) == w0[q],
                 decreases w@.len() - i,
@@ -359,6 +363,7 @@ impl MarlinPST13 {
                 w.set(i, witness);
                 ctr_inc(&mut i);
             }
+//@rw * /w\.resize\((.*?), E::G1::zero\(\)\);/ => vec_resize_g1(&mut w, \1, G1::zero());
 //@rw 1 /let hiding_witness = &hiding_witnesses\[i\];/ => let hiding_witness: &MvPoly = vec_at(&hiding_witnesses, i);
 //@rw 1 /(?s)let powers_of_gamma_g = hiding_witness\s*\.terms\(\)\s*\.iter\(\)\s*\.map\(\|\(_, term\)\| \{(.*?)\n\s*\}\)\s*\.collect::<Vec<_>>\(\);/ => let powers_of_gamma_g: Vec<G1Affine> = hiding_witness.terms().iter().map(|ct: &(Fr, Term)| -> (g: G1Affine) ensures g@ == gamma_key(ck, ct.1.v@) { let term = &ct.1; proof { reveal_with_fuel(tdeg, 2); } \1 }).collect();
                     proof { assert(g1views(powers_of_gamma_g@) =~= gkeys_of(ck, hiding_witness.terms@)); }
@@ -372,9 +377,9 @@ impl MarlinPST13 {
             let pr = Proof { w: wa__, random_v };
             assert(qsum(witnesses@, zf(pt), zf(pt), 0) == f_zero() && qsum(hws, zf(pt), zf(pt), 0) == f_zero());
             assert(mve(p.terms@, zf(pt)) == pacc(ps0, s0, n, zf(pt)) && mve(rp.terms@, zf(pt)) == racc(sts0, s0, n, zf(pt)));
-            assert(pr.w@.len() == witnesses@.len());
-            assert forall|i: int| 0 <= i < witnesses@.len() implies (#[trigger] pr.w@[i])@ == (if hid { f_add(wcomm(ck, &witnesses@[i]), hcomm(ck, &hws[i])) } else { wcomm(ck, &witnesses@[i]) }) by {
-                assert(pr.w@[i]@ == wfin[i]@); assert(wc0[i]@ == wcomm(ck, &witnesses@[i]));
+            assert(pr.w@.len() == (if hid { hws.len() } else { witnesses@.len() }));
+            assert forall|i: int| 0 <= i < pr.w@.len() implies (#[trigger] pr.w@[i])@ == (if hid { f_add(wpart(ck, witnesses@, i), hcomm(ck, &hws[i])) } else { wcomm(ck, &witnesses@[i]) }) by {
+                assert(pr.w@[i]@ == wfin[i]@); if i < witnesses@.len() { assert(wc0[i]@ == wcomm(ck, &witnesses@[i])); }
             }
             assert(pst_open_post(ck, ps0, pt, sts0, s0, &pr));
         }
